@@ -10,6 +10,7 @@ Register-UnregisterRuneFallback / buildAcsMap).  Everything is generic in the en
 import Tcell.Model.Encode
 import Tcell.Gen.TerminfoDB
 import Tcell.Gen.Acs
+import Tcell.Spec.TermCaps
 namespace Tcell.Props.C17
 open Tcell
 
@@ -259,10 +260,70 @@ theorem acsSpecOn_iff (v : EncVariant) (names : List (Nat × Rune)) (e : Terminf
     | none => rfl
     | some q => simpa using h p hp q hq
 
-/-- **acs_map_spec** (repaired loop `>= 2`, raw byte): for every entry of the regenerated database and every pair `(n, d)` of
-its `AltChars` with `n ∈ vtACSNames`: `acs (rune n) = EnterAcs ++ [d] ++ ExitAcs`. -/
+/-- the variant of `buildAcsMap` the tree under test implements, as found by the translator's behavioural probe
+(`harness/cmd/extract/acs.go` `acsProbe`; engine `acs` asks the same two questions and the correspondence ties
+`buildAcsMap treeVariant` to the real function on every database entry) -/
+def treeVariant : EncVariant := { acsAll := Gen.acsAll, acsRawByte := Gen.acsRawByte }
+
+/-- the current tree has both repairs of /repo 1c34022 (loop `>= 2`, raw terminal byte) -/
+theorem tree_variant_repaired : treeVariant = .repaired := by decide
+
+/-- **acs_map_spec** (full strength, current tree): for EVERY entry of the regenerated database and EVERY pair `(n, d)` of
+its `AltChars` with `n ∈ vtACSNames` – the last pair and terminal characters ≥ 0x80 included –
+`acs (rune n) = EnterAcs ++ [d] ++ ExitAcs`, for the `buildAcsMap` of the tree under test.  Holds since /repo 1c34022;
+on the pinned tree only `acs_map_spec_pinned_extent` held (witnesses `acs_map_spec_pinned_fails`,
+`acs_map_pinned_high_byte`).  `EnterAcs`/`ExitAcs` are the capability strings as the database has them, i.e. including
+any `$<n>` padding: what reaches the terminal is the subject of `acs_map_wire` below. -/
+theorem acs_map_spec :
+    ∀ e ∈ Gen.db, acsSpecOn treeVariant Gen.vtACSNames e (pairs e.altChars) = true := by decide
+
+/-- the same about the repaired model variant, whatever the tree (kept: it is what `acs_map_spec` reduces to) -/
 theorem acs_map_spec_repaired :
     ∀ e ∈ Gen.db, acsSpecOn .repaired Gen.vtACSNames e (pairs e.altChars) = true := by decide
+
+/-- the database entries whose `smacs`/`rmacs` carry a padding specification (terminfo(5) `$<…>`) -/
+def acsPadded (e : Terminfo) : Bool :=
+  !(Spec.TermCaps.stripPadding e.enterAcs == e.enterAcs && Spec.TermCaps.stripPadding e.exitAcs == e.exitAcs)
+
+/-- exactly two entries are concerned by the open finding `C17-acs-padding`: vt220 and vt420 -/
+theorem acs_padded_entries : (Gen.db.filter acsPadded).map (·.name) = ["vt220", "vt420"] := by decide
+
+/-- what the terminal must receive for the glyph `d`: `smacs`, the character, `rmacs`, each capability string as `TPuts`
+would emit it (terminfo(5): padding is a delay, never bytes; `C15.tputs_spec`: `TPuts` writes `stripPadding s`) -/
+def acsWire (e : Terminfo) (d : Nat) : Bytes :=
+  Spec.TermCaps.stripPadding e.enterAcs ++ [d] ++ Spec.TermCaps.stripPadding e.exitAcs
+
+def acsWireOn (v : EncVariant) (names : List (Nat × Rune)) (e : Terminfo) (ps : List (Nat × Nat)) : Bool :=
+  ps.all fun p =>
+    match names.find? (fun q => q.1 == p.1) with
+    | some (_, r) => (buildAcsMap v names e).get? r == some (acsWire e p.2)
+    | none => true
+
+/-- **acs_map_wire** (the property's reading, modulo the open finding `C17-acs-padding`): for every database entry other
+than vt220 and vt420 and every listed pair, the string `drawCell` writes for the glyph (it is written with `writeString`,
+not `TPuts`: tscreen.go encodeRune/drawCell) is byte for byte what the terminal must receive.  For the two excepted
+entries the statement is FALSE on the current tree (`acs_wire_padded_fails`): their `$<2>` / `$<4>` reaches the terminal;
+the oracle of engine `enc` reports it as class `acs-padding-literal` (open: needs a design decision, DESIGN §10.3). -/
+theorem acs_map_wire :
+    ∀ e ∈ Gen.db, e.name ≠ "vt220" → e.name ≠ "vt420" → acsWireOn treeVariant Gen.vtACSNames e (pairs e.altChars) = true := by
+  decide
+
+/-- the exception of `acs_map_wire` cannot be dropped on the current tree: on vt220 the horizontal-line glyph is written as
+`ESC ( 0 $ < 2 > q ESC ( B $ < 4 >` -/
+theorem acs_wire_padded_fails :
+    ∃ e ∈ Gen.db, e.name = "vt220" ∧ acsWireOn treeVariant Gen.vtACSNames e (pairs e.altChars) = false ∧
+      (buildAcsMap treeVariant Gen.vtACSNames e).get? 9472 = some [27, 40, 48, 36, 60, 50, 62, 113, 27, 40, 66, 36, 60, 52, 62] ∧
+      acsWire e 113 = [27, 40, 48, 113, 27, 40, 66] := by
+  decide
+
+/-- non-vacuity: the database has entries with an ACS map, their pair lists are non-trivial (xterm: 30-odd pairs, all
+named), the last pair of xterm (`~~`, bullet) and the ≥ 0x80 character of `ansi` are covered -/
+example : (Gen.db.filter (fun e => !(pairs e.altChars).isEmpty)).length ≥ 20 ∧
+    (∃ e ∈ Gen.db, e.name = "xterm" ∧ (pairs e.altChars).getLast? = some (126, 126) ∧
+      (buildAcsMap treeVariant Gen.vtACSNames e).get? 183 = some [27, 40, 48, 126, 27, 40, 66]) ∧
+    (∃ e ∈ Gen.db, e.name = "ansi" ∧ (113, 196) ∈ pairs e.altChars ∧
+      (buildAcsMap treeVariant Gen.vtACSNames e).get? 9472 = some [27, 91, 49, 49, 109, 196, 27, 91, 49, 48, 109]) := by
+  decide
 
 /-- On the pinned tree (`for len(acsstr) > 2`) the statement is **false**: the last pair of the xterm entry (`~~`, bullet) is
 missing from the map. -/
@@ -279,10 +340,9 @@ theorem acs_map_pinned_high_byte :
       (buildAcsMap .repaired Gen.vtACSNames e).get? 9472 = some [27, 91, 49, 49, 109, 196, 27, 91, 49, 48, 109] := by
   decide
 
-/-- **acs_map_spec_partial** (pinned tree): the statement holds for every pair but the last one of each entry, as long as the
-terminal's character is below 0x80.  What is missing for the full statement: the last pair (dropped by `> 2`) and the
-pairs whose character is ≥ 0x80 (UTF-8-encoded by `string(byte)`), see the two witnesses above. -/
-theorem acs_map_spec_partial :
+/-- what held for the PINNED loop (model variant `.pinned`, not the current tree; kept as the record of the defect's
+extent): every pair but the last one of each entry, as long as the terminal's character is below 0x80. -/
+theorem acs_map_spec_pinned_extent :
     ∀ e ∈ Gen.db, acsSpecOn .pinned Gen.vtACSNames e ((pairs e.altChars).dropLast.filter (fun p => p.2 < 128)) = true := by
   decide
 
